@@ -265,7 +265,25 @@ def make_twin(fs, real):
     src = Source('<fn %s>' % fs.name, text)
     f = src.find_fn(fs.name)
     body = text[f['open']:f['end'] + 1]
-    body = ''.join(c if src.mask[f['open'] + k] or c == '\n' else ' ' for k, c in enumerate(body))   # drop comments
+    # drop comments (masked runs that start with // or /*), keep string and char literals
+    out = []
+    k = 0
+    while k < len(body):
+        if src.mask[f['open'] + k]:
+            out.append(body[k])
+            k += 1
+            continue
+        j = k
+        while j < len(body) and not src.mask[f['open'] + j]:
+            j += 1
+        run = body[k:j]
+        # a masked run may hold several adjacent comments/literals; split at comment starts
+        if run.lstrip().startswith(('//', '/*')):
+            out.append(''.join(c if c == '\n' else ' ' for c in run))
+        else:
+            out.append(run)
+        k = j
+    body = ''.join(out)
     for rx, rep in fs.twin.get('subs', []):
         body = re.sub(rx, rep, body)
     return '%s %s // @vx:%s:twin' % (fs.twin['sig'], body, fs.label)
